@@ -428,7 +428,7 @@ fn depth2_stats(lo: u32, hi: u32, a0: u32, a1: u32, a2: u32, d1: u64, d2: u64, n
 
 // @harness c08_bigbed_zoom_step
 // @props C08
-// @tier off
+// @tier quick
 // @kind core
 // @timeout 3600
 // @mem 40
